@@ -48,22 +48,23 @@ type Finding struct {
 }
 
 type WorkerReport struct {
-	Runs        int            `json:"runs"`
-	Evals       int            `json:"evals"`
-	Discarded   int            `json:"discarded"`
-	Steps       int            `json:"steps"`
-	Execs       int            `json:"execs"`
-	Hashes      []uint64       `json:"hashes"`
-	ProgHashes  []uint64       `json:"prog_hashes"`
-	Faults      map[string]int `json:"faults"`
-	Probes      map[string]int `json:"probes"`
-	Porcupine   [3]int         `json:"porcupine"`
-	RaceRuns    int            `json:"race_runs"`
-	RaceReports int            `json:"race_reports"`
-	Samples     []any          `json:"samples"`
-	Findings    []Finding      `json:"findings"`
-	HarnessErr  string         `json:"harness_err"`
-	WallS       float64        `json:"wall_s"`
+	Runs          int            `json:"runs"`
+	Evals         int            `json:"evals"`
+	Discarded     int            `json:"discarded"`
+	Steps         int            `json:"steps"`
+	Execs         int            `json:"execs"`
+	Hashes        []uint64       `json:"hashes"`
+	HashesDropped int            `json:"hashes_dropped"`
+	ProgHashes    []uint64       `json:"prog_hashes"`
+	Faults        map[string]int `json:"faults"`
+	Probes        map[string]int `json:"probes"`
+	Porcupine     [3]int         `json:"porcupine"`
+	RaceRuns      int            `json:"race_runs"`
+	RaceReports   int            `json:"race_reports"`
+	Samples       []any          `json:"samples"`
+	Findings      []Finding      `json:"findings"`
+	HarnessErr    string         `json:"harness_err"`
+	WallS         float64        `json:"wall_s"`
 }
 
 func main() {
@@ -149,12 +150,25 @@ func cmdWorker(args []string) int {
 		}
 		rep.Steps += o.Steps
 		rep.Execs += o.Execs
+		// distinctness hashes are shipped to the parent; beyond a cap they are dropped and
+		// the parent reports the distinct count as a lower bound
+		const hashCap = 400000
 		if len(o.CaseHashes) > 0 {
-			rep.Hashes = append(rep.Hashes, o.CaseHashes...)
+			if len(rep.Hashes)+len(o.CaseHashes) <= hashCap {
+				rep.Hashes = append(rep.Hashes, o.CaseHashes...)
+			} else {
+				rep.HashesDropped += len(o.CaseHashes)
+			}
 		} else if o.NonTrivial {
-			rep.Hashes = append(rep.Hashes, o.TraceHash)
+			if len(rep.Hashes) < hashCap {
+				rep.Hashes = append(rep.Hashes, o.TraceHash)
+			} else {
+				rep.HashesDropped++
+			}
 		}
-		rep.ProgHashes = append(rep.ProgHashes, o.ProgHash)
+		if len(rep.ProgHashes) < hashCap {
+			rep.ProgHashes = append(rep.ProgHashes, o.ProgHash)
+		}
 		for k, v := range o.Faults {
 			rep.Faults[k] += v
 		}
@@ -526,6 +540,7 @@ func cmdRun(args []string) int {
 				total.Steps += wr.Steps
 				total.Execs += wr.Execs
 				total.Hashes = append(total.Hashes, wr.Hashes...)
+				total.HashesDropped += wr.HashesDropped
 				total.ProgHashes = append(total.ProgHashes, wr.ProgHashes...)
 				for k, v := range wr.Faults {
 					total.Faults[k] += v
@@ -651,28 +666,29 @@ func cmdRun(args []string) int {
 		total.Samples = []any{"no sample collected"}
 	}
 	cov := map[string]any{
-		"evaluations":             total.Evals,
-		"simulated_runs":          total.Runs,
-		"distinct_nontrivial":     len(distinct),
-		"rule":                    meta.Rule,
-		"samples":                 total.Samples,
-		"engine_operations":       total.Execs,
-		"runs_per_hour":           int(float64(total.Runs) / wall * 3600),
-		"seeds":                   map[string]any{"base": baseSeed, "derivation": "splitmix64(base, property, run index)", "run_indices": total.Runs},
-		"logical_steps":           total.Steps,
-		"simulated_time":          "none: pongo2 has no clock-dependent behaviour; logical_steps (scheduler decisions + seam events) is the only time there is",
-		"faults_fired":            total.Faults,
-		"distinct_interleavings":  len(distinct),
-		"distinct_workloads":      len(progs),
-		"probes":                  total.Probes,
-		"probes_at_zero":          zeroProbes,
-		"race_runs":               total.RaceRuns,
-		"race_reports":            total.RaceReports,
-		"porcupine":               map[string]int{"ok": total.Porcupine[0], "illegal": total.Porcupine[1], "unknown": total.Porcupine[2]},
-		"discarded":               total.Discarded,
-		"components":              map[string]any{"real": meta.Real, "stub": meta.Stub},
-		"known_findings_observed": len(knownHit),
-		"workers":                 workers,
+		"evaluations":              total.Evals,
+		"simulated_runs":           total.Runs,
+		"distinct_nontrivial":      len(distinct),
+		"distinct_nontrivial_note": fmt.Sprintf("exact count over %d recorded non-trivial cases; %d further non-trivial cases were not recorded (per-worker cap), so this is a lower bound when that number is > 0", len(total.Hashes), total.HashesDropped),
+		"rule":                     meta.Rule,
+		"samples":                  total.Samples,
+		"engine_operations":        total.Execs,
+		"runs_per_hour":            int(float64(total.Runs) / wall * 3600),
+		"seeds":                    map[string]any{"base": baseSeed, "derivation": "splitmix64(base, property, run index)", "run_indices": total.Runs},
+		"logical_steps":            total.Steps,
+		"simulated_time":           "none: pongo2 has no clock-dependent behaviour; logical_steps (scheduler decisions + seam events) is the only time there is",
+		"faults_fired":             total.Faults,
+		"distinct_interleavings":   len(distinct),
+		"distinct_workloads":       len(progs),
+		"probes":                   total.Probes,
+		"probes_at_zero":           zeroProbes,
+		"race_runs":                total.RaceRuns,
+		"race_reports":             total.RaceReports,
+		"porcupine":                map[string]int{"ok": total.Porcupine[0], "illegal": total.Porcupine[1], "unknown": total.Porcupine[2]},
+		"discarded":                total.Discarded,
+		"components":               map[string]any{"real": meta.Real, "stub": meta.Stub},
+		"known_findings_observed":  len(knownHit),
+		"workers":                  workers,
 	}
 	ev := map[string]any{
 		"property_id": *prop,
